@@ -11,6 +11,7 @@ import (
 	"src.elv.sh/pkg/daemon/daemondefs"
 	"src.elv.sh/pkg/daemon/internal/api"
 	"src.elv.sh/pkg/fsutil"
+	"src.elv.sh/pkg/verifhook"
 )
 
 var (
@@ -41,6 +42,7 @@ func Activate(stderr io.Writer, spawnCfg *daemondefs.SpawnConfig) (daemondefs.Cl
 	cl := NewClient(sockpath)
 	status, err := detectDaemon(sockpath, cl)
 	shouldSpawn := false
+	verifhook.Event("activate.detected", "status", int(status), "sock", sockpath)
 
 	switch status {
 	case daemonOK:
@@ -50,7 +52,9 @@ func Activate(stderr io.Writer, spawnCfg *daemondefs.SpawnConfig) (daemondefs.Cl
 		return cl, fmt.Errorf("socket file %s inaccessible: %w", sockpath, err)
 	case connectionRefused:
 		fmt.Fprintf(stderr, connectionRefusedFmt, sockpath)
+		verifhook.Event("activate.beforeRemove", "sock", sockpath)
 		err := os.Remove(sockpath)
+		verifhook.Event("activate.afterRemove", "err", err)
 		if err != nil {
 			return cl, fmt.Errorf("failed to remove socket file: %w", err)
 		}
@@ -72,7 +76,9 @@ func Activate(stderr io.Writer, spawnCfg *daemondefs.SpawnConfig) (daemondefs.Cl
 		return cl, nil
 	}
 
+	verifhook.Event("activate.beforeSpawn", "sock", sockpath)
 	err = spawn(spawnCfg)
+	verifhook.Event("activate.afterSpawn", "err", err)
 	if err != nil {
 		return cl, fmt.Errorf("failed to spawn daemon: %w", err)
 	}
@@ -82,6 +88,7 @@ func Activate(stderr io.Writer, spawnCfg *daemondefs.SpawnConfig) (daemondefs.Cl
 	for time.Since(start) < daemonSpawnTimeout {
 		cl.ResetConn()
 		status, err := detectDaemon(sockpath, cl)
+		verifhook.Event("activate.waitLoop", "status", int(status))
 
 		switch status {
 		case daemonOK:
